@@ -1,5 +1,5 @@
 """C07 — cancelling a booking takes effect and stays in effect, whatever races with it"""
-from tiecommon import TIE_DENY, TIE_TTLCODE, TIE_CHANMAP, TIE_NOTE, TIE_ASSUMPTION
+from tiecommon import TIE_DENY, TIE_TTLCODE, TIE_CHANMAP, TIE_ACCESS, TIE_NOTE, TIE_ASSUMPTION
 import re
 import c10
 import vlib
@@ -30,7 +30,7 @@ THEOREMS = [("Conc.race_session_erases_deny", "Relay.Props.C07"), ("Conc.race_ad
 POINT_OF_KIND = {"session": ["session.checked", "session.allowed", "session.minted"],
                  "deny": ["deny.listed", "deny.purged", "deny.notified"], "allow": ["allow.done"],
                  "ws": ["ws.pre_exchange", "ws.checked"]}
-THEOREMS = THEOREMS + TIE_DENY + TIE_TTLCODE + TIE_CHANMAP
+THEOREMS = THEOREMS + TIE_DENY + TIE_TTLCODE + TIE_CHANMAP + TIE_ACCESS
 RULE = TIE_NOTE + RULE
 ASSUMPTIONS = ASSUMPTIONS + [TIE_ASSUMPTION]
 
